@@ -138,10 +138,10 @@ theorem kmergeAux_perm {lt : α → α → Bool} (h : StrictWeak lt) (pick) :
     cases q with
     | nil => simp [kmergeAux, qflat]
     | cons e q =>
-      have hs := (pop_spec h pick e q).1
+      have hs := (pop_spec h (pick n) e q).1
       have hfl := qflat_perm hs
       rw [qflat_requeue] at hfl
-      have hlen : qsize (requeue (pop lt pick e q).1 (pop lt pick e q).2) ≤ n := by
+      have hlen : qsize (requeue (pop lt (pick n) e q).1 (pop lt (pick n) e q).2) ≤ n := by
         rw [qsize_eq_length] at hq ⊢
         have := hfl.length_eq
         simp only [length_cons] at this
@@ -161,19 +161,19 @@ theorem kmergeAux_sorted {lt : α → α → Bool} (h : StrictWeak lt) (pick) :
     cases q with
     | nil => simp [kmergeAux]
     | cons e q =>
-      obtain ⟨hp, hm⟩ := pop_spec h pick e q
+      obtain ⟨hp, hm⟩ := pop_spec h (pick n) e q
       have hfl := qflat_perm hp
       rw [qflat_requeue] at hfl
-      have hlen : qsize (requeue (pop lt pick e q).1 (pop lt pick e q).2) ≤ n := by
+      have hlen : qsize (requeue (pop lt (pick n) e q).1 (pop lt (pick n) e q).2) ≤ n := by
         rw [qsize_eq_length] at hq ⊢
         have := hfl.length_eq
         simp only [length_cons] at this
         omega
-      have hs' : QSorted lt ((pop lt pick e q).1 :: (pop lt pick e q).2) := hs.perm hp
+      have hs' : QSorted lt ((pop lt (pick n) e q).1 :: (pop lt (pick n) e q).2) := hs.perm hp
       simp only [kmergeAux]
       refine pairwise_cons.mpr ⟨?_, ih _ hlen hs'.requeue⟩
       intro z hz
-      have hz1 : z ∈ qflat (requeue (pop lt pick e q).1 (pop lt pick e q).2) :=
+      have hz1 : z ∈ qflat (requeue (pop lt (pick n) e q).1 (pop lt (pick n) e q).2) :=
         (kmergeAux_perm h pick n _ hlen).subset hz
       have hz2 : z ∈ qflat (e :: q) := hfl.subset (mem_cons_of_mem _ hz1)
       exact minHead_le_all h hm hs z hz2
@@ -206,12 +206,12 @@ theorem QSorted_toQueue {lt : α → α → Bool} : ∀ (runs : List (List α)),
 theorem kmerge_perm {lt : α → α → Bool} (h : StrictWeak lt) (pick) (runs : List (List α)) :
     kmerge lt pick (toQueue runs) ~ runs.flatten := by
   rw [← qflat_toQueue]
-  exact kmergeAux_perm h pick _ _ (Nat.le_refl _)
+  exact kmergeAux_perm h (pick _) _ _ (Nat.le_refl _)
 
 /-- **merge of sorted lists is sorted** (any tie-break) -/
 theorem kmerge_sorted {lt : α → α → Bool} (h : StrictWeak lt) (pick) (runs : List (List α))
     (hr : ∀ r ∈ runs, Pairwise (LE lt) r) : Pairwise (LE lt) (kmerge lt pick (toQueue runs)) :=
-  kmergeAux_sorted h pick _ _ (Nat.le_refl _) (QSorted_toQueue runs hr)
+  kmergeAux_sorted h (pick _) _ _ (Nat.le_refl _) (QSorted_toQueue runs hr)
 
 /-! ### the combiner fold -/
 
